@@ -522,6 +522,21 @@ impl Relayer {
                 }
             }
 
+            // `into_view()` has recomputed the transactions root, the proposals hash and the extra hash of
+            // the header from the body. Only the transactions root can legitimately differ (short id
+            // collision, handled above). If the proposals, the uncles or the extension sent along with the
+            // header do not hash to what the header commits to, the result is a different block with a
+            // header whose proof of work was never verified: refuse it.
+            if block.hash() != compact_block_hash {
+                return ReconstructionResult::Error(
+                    StatusCode::ProtocolMessageIsMalformed.with_context(format!(
+                        "CompactBlock({}) proposals/uncles/extension do not match its header, reconstructed block({})",
+                        compact_block_hash,
+                        block.hash(),
+                    )),
+                );
+            }
+
             ReconstructionResult::Block(block)
         } else {
             let missing_indexes: Vec<usize> = block_transactions
